@@ -16,9 +16,12 @@ RULE = ("seeded data sets (distinct x, more points than parameters; sigma_y none
         "spread x20; sigma_x none/common/per-point/per-point with some exact zeros/exactly one "
         "non-zero/common with one element set to 0 afterwards, for exponential, Gaussian and three "
         "user models; polynomial degrees 1-5; x-ranges whose bounds may coincide with data points; "
-        "30 % of the problems rescaled to other units, x and y independently by 1e-12..1e12; data "
+        "30 % of the problems rescaled to other units, x and y independently by 1e-12..1e12; OFFSET "
+        "abscissae |x|/span = 1e2..1e5 (position as a fit parameter up to 6e3, as a constant of the "
+        "user model up to 1e5) with x-uncertainties and noisy y; closed-form fits called with "
+        "parguess (list / tuple, with and without x-uncertainties); data "
         "passed as lists, arrays, MeasurementArrays, XYDataSet (keywords or arrays carrying the "
-        "uncertainties), XYDataSet.fit, keywords, enum model, y as DerivedValues) fitted by "
+        "uncertainties), XYDataSet.fit, keywords, enum model, y as DerivedValues, Plot.fit) fitted by "
         "the real library; the returned parameters/covariance are certified by the Lean driver "
         "against the proved optimality conditions; non-trivial = per-point weights unequal or "
         "sigma_x > 0; distinct by hash of the data set")
